@@ -201,7 +201,7 @@ def run(report, tier, seed):
         if diff:
             report.notes.append(f"source facts and replayed witnesses differ: {diff}")
     version = numpoly.__version__
-    n_poly = 220 if tier == "quick" else 2600
+    n_poly = 220 if tier == "quick" else 7000
     n_text = 2 if tier == "quick" else 3
     stats = {"pickle": 0, "copy": 0, "text": 0, "text_ok": 0, "plain": 0, "pickle_recleaned": 0, "names_pruned_by_option": 0,
              "text_0d": 0, "text_single": 0, "numpy_cannot_read": 0}
@@ -219,14 +219,14 @@ def run(report, tier, seed):
             names = gen.rand_names(rng)
             if rng.random() < 0.15:
                 names = tuple(sorted(set(names) | {10}))[:4]
-            nterms = rng.choice([1, 1, 1, 2, 2, 3, 4, 6, 0])
+            nterms = rng.choice([1, 1, 2, 2, 2, 3, 3, 4, 6, 0])
             dtype = rng.choice([numpy.int64, numpy.float64])
             raw = rng.random() < 0.4
             p = gen.rand_poly(rng, shape, names, nterms=nterms, maxexp=3, dtype=dtype, raw=raw)
             g_rc, g_rn = rng.choice([(False, True), (False, True), (True, True), (False, False), (True, False)])
             lay = layout(p)
             tp = core.coq_parr(lay)
-            desc = gen.describe(p)[:160]
+            desc = " ".join(gen.describe(p).split())[:160]
             st0 = exact_state(p)
             redundant = has_redundant_zero_term(p)
             bump(dist["shapes"], str(tuple(p.shape)))
@@ -377,7 +377,7 @@ def run(report, tier, seed):
             report.sample({"poly": desc, "pickle": str(first[1][:4])[:200] if first else None}, cap=4)
 
         # ---------------- files without the numpoly header ----------------------------------------
-        n_plain = 40 if tier == "quick" else 400
+        n_plain = 40 if tier == "quick" else 1000
         for k in range(n_plain):
             stats["plain"] += 1
             rows_, cols_ = rng.randint(1, 4), rng.randint(1, 3)
